@@ -191,12 +191,16 @@ impl Context
     ///
     /// * `id` - The next reference ID to cache.
     /// * `directory_path` - The directory containing the lock file.
+    ///
+    /// # Returns
+    ///
+    /// False if the lock file should have been written but couldn't be, true otherwise.
     #[allow(dead_code)]
-    pub fn cache_next_reference_id(&self, id: u32, directory_path: &str)
+    pub fn cache_next_reference_id(&self, id: u32, directory_path: &str) -> bool
     {
         if !self.config.use_cache
         {
-            return;
+            return true;
         }
 
         let cache_path = std::path::Path::new(directory_path).join(Context::CACHE_FILENAME);
@@ -229,13 +233,22 @@ impl Context
 
                     if std::fs::remove_file(&scratch_path).is_ok()
                     {}
+
+                    return false;
                 }
+
+                true
             },
-            Err(e) => log::warn!(
-                "[ref: 34] Failed to serialize lock file {}: {}",
-                Context::CACHE_FILENAME,
-                e
-            ),
+            Err(e) =>
+            {
+                log::warn!(
+                    "[ref: 34] Failed to serialize lock file {}: {}",
+                    Context::CACHE_FILENAME,
+                    e
+                );
+
+                false
+            },
         }
     }
 }
